@@ -31,6 +31,10 @@ func (d *DebugUpgrader) Upgrade(conn io.ReadWriter) (hs ws.Handshake, err error)
 		// below.
 		r io.Reader = conn
 		w io.Writer = conn
+
+		// reportRequest is non-nil when the request is reported only after
+		// Upgrade() has read it.
+		reportRequest func()
 	)
 	if onRequest := d.OnRequest; onRequest != nil {
 		var buf bytes.Buffer
@@ -42,12 +46,26 @@ func (d *DebugUpgrader) Upgrade(conn io.ReadWriter) (hs ws.Handshake, err error)
 			// Fulfill the buffer with the response body.
 			io.Copy(ioutil.Discard, req.Body)
 			req.Body.Close()
-		}
-		onRequest(buf.Bytes())
 
-		r = io.MultiReader(
-			&buf, conn,
-		)
+			onRequest(buf.Bytes())
+
+			r = io.MultiReader(
+				&buf, conn,
+			)
+		} else {
+			// The request is not one that net/http understands, so it may
+			// have been read only in part. Upgrade() below consumes the
+			// bytes taken so far and whatever follows them; all of that is
+			// reported once it returns.
+			seen := append([]byte(nil), buf.Bytes()...)
+			r = io.MultiReader(
+				bytes.NewReader(seen),
+				io.TeeReader(conn, &buf),
+			)
+			reportRequest = func() {
+				onRequest(buf.Bytes())
+			}
+		}
 	}
 
 	if onResponse := d.OnResponse; onResponse != nil {
@@ -59,6 +77,11 @@ func (d *DebugUpgrader) Upgrade(conn io.ReadWriter) (hs ws.Handshake, err error)
 		defer func() {
 			onResponse(buf.Bytes())
 		}()
+	}
+	if reportRequest != nil {
+		// Deferred last to run first: the request is reported before the
+		// response, as usual.
+		defer reportRequest()
 	}
 
 	return d.Upgrader.Upgrade(struct {
